@@ -79,6 +79,13 @@ def T2():
         out.append(D.Stack([1, 3], "x", D.Count(), nan=fl))
     out.append(D.Bin(2, 0, 4, "x", D.Count("sq")))
     out.append(D.Branch(D.Count(), D.Count("sq"), D.Bag("x", "N2")))
+    # collections whose children have one type but read different fields (pairing them up wrongly shows)
+    out.append(D.Label(a=D.Sum("x"), b=D.Sum("y"), c=D.Sum("x")))      # (not the selection field s: gamma does not map it)
+    out.append(D.Label(p=D.Bin(2, 0, 4, "x"), q=D.Bin(2, 0, 4, "y")))
+    out.append(D.UntypedLabel(a=D.Sum("x"), b=D.Sum("y"), n=D.Count()))
+    out.append(D.Index(D.Average("x"), D.Average("y")))
+    out.append(D.Bin(2, 0, 4, "x", D.Label(a=D.Minimize("x"), b=D.Minimize("y"))))
+    out.append(D.Bag("x", "N2"))
     return out
 
 
